@@ -64,10 +64,10 @@ def clausesOf (prop : String) : List String :=
     "counter_ge_held_put_during_prune_sync", "put_returns"]
   else if prop == "C06" then ["retained_within_radius", "radius_antitone", "refusal_exact", "radius_changes_only_by_own_prune",
     "radius_only_shrinks_in_both_byte_orders"]
-  else if prop == "C17" then ["open_radius_max_when_empty", "counter_ge_held"]
+  else if prop == "C17" then ["open_radius_max_when_empty", "counter_ge_held", "open_radius_max_unless_over_95pct"]
   else ["get_only_put", "get_returns_stored_until_pruned", "returned_bytes_stable", "put_error", "counter_ge_held", "held_le_cap", "prune_frees_5pct",
         "farthest_first", "retained_within_radius", "radius_antitone", "refusal_exact", "open_radius_max_when_empty", "radius_changes_only_by_own_prune",
-        "counter_ge_held_put_during_prune_sync", "put_returns", "radius_only_shrinks_in_both_byte_orders"]
+        "counter_ge_held_put_during_prune_sync", "put_returns", "radius_only_shrinks_in_both_byte_orders", "open_radius_max_unless_over_95pct"]
 
 def stepAll (d : DS) (toks : List String) (impl : String) : DS × Res :=
   let it := words impl
@@ -132,6 +132,8 @@ def stepAll (d : DS) (toks : List String) (impl : String) : DS × Res :=
     let mon := (if kvNat it "persisted" < kvNat it "held" then ["counter_ge_held"] else [])
       ++ (if maxKept != "-" && beVal (unhex maxKept) > radius then ["retained_within_radius"] else [])
       ++ (if maxKept == "-" && radius != maxRadius then ["open_radius_max_when_empty"] else [])
+      -- "is the maximum otherwise": at 95 % of the capacity or below the reopened store advertises the maximum radius
+      ++ (if kvNat it "persisted" * 20 ≤ d.st.cap * 19 && radius != maxRadius then ["open_radius_max_unless_over_95pct"] else [])
     ({ d with st := s', prevRadius := radius }, { model := "ok " ++ snap s', monitor := mon, tags := ["reopen"] })
   | some "twostore" =>
     -- a second store in the same process that never pruned keeps the maximum radius whatever the first one does, and a
